@@ -1,4 +1,5 @@
 import CorsVerif.Model.Errors
+import CorsVerif.Proofs.Translated
 /-
   C19 — cfgerrors.All yields exactly the leaf errors and honours early exit.
 
@@ -134,5 +135,18 @@ example : (ETree.run (.join [.leaf 1, .join [.leaf 2, .leaf 3], .join [.join [.l
 #print axioms C19
 #print axioms C19_full
 #print axioms C19_break
+
+
+/-- **C19 (translated origin loop).** One iteration of the `for _, raw := range patterns` loop of `validateOrigins` — the `*`
+incompatibilities, `origins.ParsePattern` and its error, the insecure-origin and public-suffix guards with their tolerance
+switches (each reported, in the code's order, none skipping another), `tree.Insert` — is translated from /repo's config.go on
+every run and equals `Validate.originStep` for every loop state and element (whatever the IDNA / public-suffix oracles
+answer); hence the fold over any list of patterns is the model's. -/
+theorem C19_originLoop_translated (ext : Ext) (credentialed pnaAny tolInsecure tolPSL : Bool) (patterns : List Bytes) :
+    patterns.foldl (Gen.GoSrc.originStep ext credentialed pnaAny tolInsecure tolPSL) {} =
+      patterns.foldl (Validate.originStep ext credentialed pnaAny tolInsecure tolPSL) {} :=
+  Translated.originLoop_eq ext credentialed pnaAny tolInsecure tolPSL patterns
+
+#print axioms C19_originLoop_translated
 
 end Cors
